@@ -128,7 +128,7 @@ def check_model(group: ModelGroupType) -> None:
                 except IndexError:
                     return
 
-    paths: Any = {}
+    paths: list[tuple[SchemaElementType, list[ModelParticleType]]] = []
     current_path: list[ModelParticleType] = [group]
 
     try:
@@ -139,7 +139,7 @@ def check_model(group: ModelGroupType) -> None:
     for e in safe_iter_path():
 
         previous_path: list[ModelParticleType]
-        for pe, previous_path in paths.values():
+        for pe, previous_path in paths:
             # EDC check
             if not e.is_consistent(pe) or any_element and not any_element.is_consistent(pe):
                 msg = _("Element Declarations Consistent violation between {0!r} and {1!r}"
@@ -171,7 +171,7 @@ def check_model(group: ModelGroupType) -> None:
                 msg = _("Unique Particle Attribution violation between {0!r} and {1!r}")
                 raise XMLSchemaModelError(group, msg.format(pe, e))
 
-        paths[e.name] = e, current_path[:]
+        paths.append((e, current_path[:]))
 
 
 class ModelVisitor:
